@@ -716,6 +716,47 @@ def c08(ctx):
                            len(PAIRS), len(tested), r["from_tests"], len(CONTEXTS), " + all depth-2 chains + depth<=4 exhaustive over override-related contexts" if ctx.tier == "thorough" else ""),
                        samples=[{"program": f[2]["program"], "class": f[0]} for f in r["findings"][:2]],
                        distribution=dict(r["dist"], **{k: v for k, v in stats.items()}))
+    # ---------------------------------------------------------------- (d) very deep nesting ("to any depth")
+    deep_ctx = ["call-argument", "array-element", "object-value", "conditional-branch", "logical-and"]
+    deep_ctx = [k for k in deep_ctx if k in CTX]
+    dcases, dmeta = [], []
+    drng = random.Random(ctx.seed + 808)
+    dpairs = [p for p in PAIRS if p[1] == "E"]
+    for p in (drng.sample(dpairs, min(len(dpairs), 14)) if ctx.tier == "quick" else dpairs):
+        for depth in (8, 24, 48, 96, 160):
+            k = drng.choice(deep_ctx)
+            chain = [k] * depth
+            for which, text in (("construct", p[2]), ("twin", p[3])):
+                src, off, jsx = assemble(chain, filler_for("E", text, "E"))
+                dcases.append({"src": src, "media": media_for(p, jsx), "rules": [p[0]]})
+                dmeta.append((p, depth, k, which, off))
+        # the construct alone, as the baseline
+        src, off, jsx = assemble([], filler_for("E", p[2], "S"))
+        dcases.append({"src": src, "media": media_for(p, False), "rules": [p[0]]})
+        dmeta.append((p, 0, None, "alone", off))
+    dres = run_lint(dcases)
+    base = {}
+    for (p, depth, k, which, off), r0 in zip(dmeta, dres):
+        if which == "alone":
+            base[p] = (rule_diags(r0, p[0]), off)
+    ndeep_ok = 0
+    for (p, depth, k, which, off), r0 in zip(dmeta, dres):
+        if which == "alone" or base.get(p, (None, 0))[0] is None:
+            continue
+        got = rule_diags(r0, p[0])
+        if got is None:
+            continue   # too deep for the parser: not this property's business (C01 covers crashes)
+        b, boff = base[p]
+        want = shifted(b, off - boff) if which == "construct" else []
+        # the alone-program wraps the expression as a statement `(expr);`, the nested one as `(expr)`: same offsets inside
+        if got == want:
+            ndeep_ok += 1
+        else:
+            ctx.violation("C08.%s:%s:deep-nesting" % ("hidden" if which == "construct" and len(got) < len(want) else "created" if len(got) > len(want) else "moved", p[0]),
+                          "%s nested %d times in %s: expected %d diagnostics at shifted positions, got %s" % (which, depth, k, len(want), got[:3]),
+                          {"program": dcases[dmeta.index((p, depth, k, which, off))]["src"][:4000], "rule": p[0], "depth": depth, "context": k})
+    ctx.correspondence("very deep nesting: the same context repeated 8..160 times around construct and twin", len(dcases), ndeep_ok, [],
+                       "expression constructs of a sample of rules inside %s repeated 8/24/48/96/160 times; exact positions; non-trivial := confirmed prediction" % deep_ctx)
     ctx.extra["c08"] = {
         "outcomes": dict(stats),
         "excluded_non_neutral_depth1": {k: sorted(set(v)) for k, v in r["excl"]["non_neutral"].items()},
